@@ -111,6 +111,14 @@ Finish(c) ==
   /\ busy' = [busy EXCEPT ![c] = "none"]
   /\ UNCHANGED <<idle, size, held, nextC, rec, dead, budget>>
 
+\* the caller propagates the panic of its closure (`interact(..).await.unwrap()`): its task unwinds while it
+\* holds the connection, which goes back to the pool from inside the unwinding
+UnwindReturn(c) ==
+  /\ rec = NoConn /\ c \in held /\ busy[c] = "none" /\ ~poisoned[c] /\ Spend
+  /\ poisoned' = [poisoned EXCEPT ![c] = TRUE]
+  /\ held' = held \ {c} /\ idle' = Append(idle, c)
+  /\ UNCHANGED <<size, nextC, broken, invalid, busy, rec, dead>>
+
 Break(c) ==
   /\ AllowBreak /\ rec = NoConn /\ c \in held /\ ~broken[c] /\ busy[c] = "none" /\ ~poisoned[c] /\ Spend
   /\ broken' = [broken EXCEPT ![c] = TRUE]
@@ -130,7 +138,7 @@ Next ==
   \/ Get \/ GetResume
   \/ \E c \in Conns : \E out \in {"ok", "panic"} : Interact(c, out)
   \/ \E c \in Conns : \E out \in {"ok", "panic", "break", "invalid"} : InteractCancel(c, out)
-  \/ \E c \in Conns : Finish(c) \/ Break(c) \/ Invalidate(c) \/ Return(c)
+  \/ \E c \in Conns : Finish(c) \/ Break(c) \/ Invalidate(c) \/ Return(c) \/ UnwindReturn(c)
 
 Spec == Init /\ [][Next]_vars
 
